@@ -469,8 +469,11 @@ impl World for W5 {
             let n = if tier == Tier::Thorough && rng.chance(1, 8) { rng.range(6, 12) } else { rng.range(1, 6) };
             let mut rules = Vec::new();
             let mut either = 0;
+            let ids = crate::w1::id_pool(rng, n);
             for k in 0..n {
-                let id = format!("{}", (b'a' + (k as u8 % 26)) as char);
+                let id = if n <= 6 && rng.chance(1, 2) { format!("{}", (b'a' + (k as u8 % 26)) as char) } else { ids[k].clone() };
+                let id = if rules.iter().any(|r: &Value| r["id"] == id.as_str()) { ids[k].clone() } else { id };
+                let id = if rules.iter().any(|r: &Value| r["id"] == id.as_str()) { format!("u{k}") } else { id };
                 let mut r = gen_fold_rule(rng, &id);
                 // at most two rules whose sampling outcome the statement leaves open
                 if let Some(s) = r["source"]["sampling"].as_u64() {
@@ -561,7 +564,7 @@ impl World for W5 {
                 scheme: rng.pick(&[None, Some("http".to_string()), Some("https".to_string())]).clone(),
                 method: rng.pick(&[None, Some("POST".to_string())]).clone(),
                 headers: if rng.coin() { vec![("X-A".to_string(), "fr".to_string())] } else { Vec::new() },
-                ip: rng.pick(&[None, Some("10.1.2.3".to_string())]).clone(),
+                ip: if rng.chance(1, 3) { None } else { Some(rng.pick_str(crate::w1::IPS)) },
                 dt_ns: 0,
             };
             W5Case {
